@@ -70,10 +70,10 @@ def split_subsection_names(key: str) -> list[str]:
         The individual (sub)sections.
 
     """
-    placeholder = "\x1f"  # unit separator control character (ASCII control char 31)
-    key = key.replace("\\/", placeholder)
-    parts = (part.strip() for part in key.split("/"))
-    return [part.replace(placeholder, "/") for part in parts]
+    # split on each "/" that is not escaped, i.e. not preceded by a backslash;
+    # no placeholder character is used, so no character of the key is special
+    parts = re.split(r"(?<!\\)/", key)
+    return [part.replace("\\/", "/").strip() for part in parts]
 
 
 @dataclass
